@@ -235,8 +235,35 @@ def gen_bijective(g, n_exprs):
     return [g.arrange(g.perm(axes), units=0.0) for _ in range(n_exprs)]
 
 
+def _scattered(c):
+    """two bracketed axes of the first input with an un-bracketed axis between them"""
+    m = [bool(l.marked) for l in gencalls.leaves(c.ins[0])]
+    if sum(m) < 2:
+        return False
+    first, last = m.index(True), len(m) - 1 - m[::-1].index(True)
+    return not all(m[first:last + 1])
+
+
+def scattered_items(rng, n):
+    """reductions and axis-preserving operations over bracketed axes that are not neighbours, moved with the tensor / regrouped:
+    the adjacent and the scattered spelling of the same operation have to agree"""
+    items, tries = [], 0
+    while len(items) < n and tries < 40 * n:
+        tries += 1
+        c = gencalls.gen_call(rng, rng.choice(["reduce", "preserve"]))
+        if not _scattered(c):
+            continue
+        kind = rng.choice(["perm_in", "perm_in", "regroup"])
+        t = TRANSFORMS[kind](c, rng)
+        if t is None:
+            continue
+        t[0].describe(rng)
+        items.append((kind, c, t))
+    return items
+
+
 def make_items(rng, n):
-    items = []
+    items = scattered_items(rng, n // 5)
     for i in range(n):
         kind = rng.choice(["rename", "perm_in", "perm_out", "regroup", "regroup", "inverse", "compose"])
         g = gencalls.G(rng)
